@@ -1,6 +1,218 @@
 import YaegiVerif.Common.Sexp
-/- Line-protocol front end for C07 (glue). Placeholder until the property's model exists. -/
+import YaegiVerif.Model.Boundary
+import YaegiVerif.Generated.C07
+/- Line-protocol front end for C07 (glue, not a proof obligation).
+
+   call (recv HASRECV RECVISIFACE RECVINSIG) ISVARIADIC ELLIPSIS DEFERRED (params "T0" … ) (velem "T")
+        (args (SIT FORM PKIND) …) (ctx KIND …) NOUT
+      → y=<ok|bad:reason> reps=<c0,c1,…> off=<n> g=<ok|bad:reason>
+      y is the model of the unchanged mechanism run with the facts regenerated from the source, g the contract.
+      SIT   = (emptyNil) (emptyDyn INTERP METHODS) (emptyBoxed) (sifaceNil) (sifaceVal INTERP) (fnNil) (fnDecl) (fnClosure)
+              (fnHost) (hostIfaceVar INTERP) (hostIfaceNil) (hostDyn) (concreteDyn INTERP METHODS) (plain CLASS CLEAN)
+      FORM  = const | other      (constants are converted to the parameter type callBin picks)
+      PKIND = concrete | empty | host
+      ctx   = (assign B0 B1 …) | (ret POS) | (deflt)
+   wrap NUMRET NPARAMS CLOSURE     → y=<ok|bad:…> g=ok   (the MakeFunc wrapper against the in-script call, on probe frames) -/
 namespace YaegiVerif.Driver.C07
-open YaegiVerif
-def handle (_args : List Sexp) : String := "unimplemented"
+open YaegiVerif YaegiVerif.Boundary
+
+def G : Facts := Generated.C07.facts
+
+mutual
+  def repBeq : Rep → Rep → Bool
+    | .int a, .int b => a == b
+    | .nil, .nil => true
+    | .tuple a, .tuple b => replBeq a b
+    | .ptr a, .ptr b => repBeq a b
+    | .node a, .node b => a == b
+    | .mkfunc a c, .mkfunc b d => a == b && c == d
+    | .native a, .native b => a == b
+    | .vi a, .vi b => repBeq a b
+    | .dyn a, .dyn b => decide (a = b)
+    | .iwrap a, .iwrap b => repBeq a b
+    | _, _ => false
+  def replBeq : RepL → RepL → Bool
+    | .nil, .nil => true
+    | .cons a as, .cons b bs => repBeq a b && replBeq as bs
+    | _, _ => false
+end
+instance : BEq Rep := ⟨repBeq⟩
+
+def probeDyn (interp methods : Bool) : Dyn := { tid := 1, interp := interp, methods := methods, payload := 7 }
+
+structure Sit where
+  ty : ArgTy
+  rep : Rep
+
+def cleanRep (clean : Bool) : Rep := if clean then .tuple (.cons (.int 1) .nil) else .tuple (.cons (.vi (.dyn (probeDyn true true))) .nil)
+
+def parseSit (s : Sexp) : Option Sit :=
+  match s with
+  | .list [.atom "emptyNil"] => some ⟨{ emptyIface := true, ifaceSrc := true }, .nil⟩
+  | .list [.atom "emptyDyn", i, m] => do
+    let i ← i.bool?; let m ← m.bool?
+    some ⟨{ emptyIface := true, ifaceSrc := true }, .dyn (probeDyn i m)⟩
+  | .list [.atom "emptyBoxed"] => some ⟨{ emptyIface := true, ifaceSrc := true }, .vi (.dyn (probeDyn true true))⟩
+  | .list [.atom "sifaceNil"] => some ⟨{ ifaceSrc := true }, .nil⟩
+  | .list [.atom "sifaceVal", i] => do
+    let i ← i.bool?
+    some ⟨{ ifaceSrc := true }, .vi (.dyn (probeDyn i true))⟩
+  | .list [.atom "fnNil"] => some ⟨{ funcSrc := true }, .nil⟩
+  | .list [.atom "fnDecl"] => some ⟨{ funcSrc := true }, .node 1⟩
+  | .list [.atom "fnClosure"] => some ⟨{ funcSrc := true }, .mkfunc 1 true⟩
+  | .list [.atom "fnHost"] => some ⟨{ funcSrc := true }, .native 1⟩
+  | .list [.atom "hostIfaceVar", i] => do
+    let i ← i.bool?
+    some ⟨{ valueT := true }, if i then .iwrap (.dyn (probeDyn true true)) else .dyn (probeDyn false true)⟩
+  | .list [.atom "hostIfaceNil"] => some ⟨{ valueT := true }, .nil⟩
+  | .list [.atom "hostDyn"] => some ⟨{ valueT := true }, .dyn (probeDyn false true)⟩
+  | .list [.atom "concreteDyn", i, m] => do
+    let i ← i.bool?; let m ← m.bool?
+    some ⟨{}, .dyn (probeDyn i m)⟩
+  | .list [.atom "plain", .atom cls, c] => do
+    let c ← c.bool?
+    let ty : ArgTy := match cls with
+      | "arrEmptyIface" => { arrayOrVariadic := true, elemEmptyIface := true }
+      | "arrOther" => { arrayOrVariadic := true }
+      | "ptrHost" => { ptrSrc := true, elemValueT := true }
+      | "ptrScript" => { ptrSrc := true }
+      | "hostVal" => { valueT := true }
+      | _ => {}
+    some ⟨ty, cleanRep c⟩
+  | _ => none
+
+def parsePK : Sexp → Option ParamKind
+  | .atom "concrete" => some .concrete
+  | .atom "empty" => some .emptyIface
+  | .atom "host" => some .hostIface
+  | _ => none
+
+def repClass : Rep → String
+  | .nil => "nil"
+  | .iwrap _ => "ifacewrap"
+  | .vi _ => "leak"
+  | .node _ => "leak"
+  | .mkfunc _ _ => "func"
+  | .native _ => "func"
+  | _ => "raw"
+
+def defKind (f : Facts) (ve : Bool) (p : ParamKind) : ParamKind := if ve && !f.defTypeElem then .concrete else p
+
+def prepare (f : Facts) (s : Sit) (ve : Bool) (p : ParamKind) : Rep :=
+  applyPrep (argPrepY f.arms s.ty) (defKind f ve p) s.rep
+
+/-- the representation the contract asks for (what a compiled host must see) -/
+def ideal (s : Sit) (p : ParamKind) : Rep :=
+  match datum s.rep with
+  | .dyn d => if p == .hostIface && d.interp then .iwrap (.dyn d) else .dyn d
+  | r => r
+
+def probeArgs (n : Nat) : List Rep := (List.range n).map (fun i => Rep.int (Int.ofNat i))
+
+def showSlot : Slot → String
+  | .lhs i => s!"lhs{i}" | .result i => s!"res{i}" | .tmp i => s!"tmp{i}" | .dropped => "_"
+
+def parseCtx (s : Sexp) : Option Ctx :=
+  match s with
+  | .list (.atom "assign" :: bs) => (bs.mapM Sexp.bool?).map Ctx.assignX
+  | .list [.atom "ret", p] => p.nat?.map Ctx.ret
+  | .list [.atom "deflt"] => some (.deflt 5)
+  | _ => none
+
+structure ArgIn where
+  sit : Sit
+  isConst : Bool
+  pk : ParamKind
+
+def parseArg (s : Sexp) : Option ArgIn :=
+  match s with
+  | .list [sit, .atom form, pk] => do
+    let st ← parseSit sit
+    let p ← parsePK pk
+    some ⟨st, form == "const", p⟩
+  | _ => none
+
+/-- the parameter type (as the harness spells it) at index k of the reflected signature -/
+def typeAt (recvInSig : Bool) (params : List String) (velem : String) (k : Nat) (elem : Bool) : String :=
+  let sig := if recvInSig then "RECV" :: params else params
+  if elem then (if k + 1 == sig.length then velem else "ELEM-OF:" ++ sig.getD k "?") else sig.getD k "OUT-OF-RANGE"
+
+def firstBad (xs : List (Option String)) : String :=
+  match xs.filterMap id with
+  | [] => "ok"
+  | b :: _ => "bad:" ++ b
+
+def handleCall (hasRecv recvIsIface recvInSig isVariadic ellipsis deferred : Bool) (params : List String) (velem : String)
+    (args : List ArgIn) (ctx : Ctx) (nOut : Nat) : String :=
+  let nParams := params.length
+  let numIn := nParams + (if recvInSig then 1 else 0)
+  let nArgs := args.length
+  let off := rcvrOffsetY G hasRecv recvIsIface isVariadic numIn nArgs
+  let trueOff := if recvInSig then 1 else 0
+  -- constants are converted to the type callBin picks for their position
+  let conv := (List.range nArgs).zip args |>.map fun (i, a) =>
+    if !a.isConst then none else
+      let (k, e) := argTypeIndexY G isVariadic numIn off i
+      let (k', e') := typeIndexSpec isVariadic numIn trueOff i
+      let chosen := typeAt recvInSig params velem k e
+      let right := typeAt recvInSig params velem k' e'
+      if chosen == right then none else some s!"const-arg{i}-converted-to-{chosen}-not-{right}"
+  -- preparation of each argument
+  let nFixed := if isVariadic then nParams - 1 else nParams
+  let prepared := (List.range nArgs).zip args |>.map fun (i, a) =>
+    let ve := isVariadic && !ellipsis && decide (i ≥ nFixed)
+    (i, prepare G a.sit ve a.pk, a.pk)
+  let prepBad := prepared.map fun (i, h, p) =>
+    if !hostAssignable p h then some s!"arg{i}-not-assignable"
+    else if !hostClean h then some s!"arg{i}-leaks-box" else none
+  -- the wrapper target index
+  let defBad := (List.range nArgs).zip args |>.map fun (i, a) =>
+    let (k, _) := defTypeIndexY G isVariadic numIn off i
+    let (k', _) := typeIndexSpec isVariadic numIn trueOff i
+    if a.pk == .hostIface && k != k' then some s!"arg{i}-wrapper-target-param{k}" else none
+  -- packing
+  let pa := probeArgs nArgs
+  let packed := if deferred then packDeferY G isVariadic nFixed pa else packBinY G isVariadic ellipsis nFixed pa
+  let packBad := if packed == goPack isVariadic ellipsis nFixed pa then none
+    else if isVariadic && !ellipsis && nArgs == nFixed then some "variadic-empty-slice-not-nil"
+    else some "packing"
+  -- routing
+  let routeBad := if deferred then none else
+    if routeY G ctx nOut == routeSpec ctx nOut then none else some "result-routing"
+  let y := firstBad (conv ++ defBad ++ prepBad ++ [packBad, routeBad])
+  let reps := ",".intercalate (prepared.map fun (_, h, _) => repClass h)
+  let ideals := ",".intercalate (args.map fun a => repClass (ideal a.sit a.pk))
+  s!"y={y} reps={if reps.isEmpty then "-" else reps} off={off} g=ok ideal={if ideals.isEmpty then "-" else ideals}"
+
+/-- probe function: result j is the constant 100+j, except result 0 which echoes parameter 0 when there is one -/
+def probeDef (numRet nParams : Nat) : FnDef :=
+  { numRet := numRet, params := List.replicate nParams .plain, nLocals := 1,
+    body := fun _ fr =>
+      let fr1 := (List.range numRet).foldl (fun acc j => setAt acc j (.int (100 + j))) fr
+      if nParams > 0 && numRet > 0 then setAt fr1 0 (fr.getD numRet .nil) else fr1 }
+
+def handleWrap (numRet nParams : Nat) (closure : Bool) : String :=
+  let d := probeDef numRet nParams
+  let ins := (List.range nParams).map fun i => Rep.int (Int.ofNat (40 + i))
+  let noCall : Rep → List Rep → List Rep := fun _ _ => []
+  let w := if closure then closureCall G d noCall ins else wrapperCall G d noCall ins
+  let want := innerCall d noCall ins
+  if w == want then "y=ok g=ok" else "y=bad:wrapper-results g=ok"
+
+instance : BEq Ctx := ⟨fun a b => decide (a = b)⟩
+
+def handle (args : List Sexp) : String :=
+  match args with
+  | [.atom "call", .list [.atom "recv", hr, ri, rs], iv, el, df, .list (.atom "params" :: ps), .list [.atom "velem", .atom ve],
+     .list (.atom "args" :: as), ctx, nout] =>
+    (match hr.bool?, ri.bool?, rs.bool?, iv.bool?, el.bool?, df.bool?, ps.mapM Sexp.atom?, as.mapM parseArg, parseCtx ctx, nout.nat? with
+     | some hr, some ri, some rs, some iv, some el, some df, some ps, some as, some c, some n =>
+       handleCall hr ri rs iv el df ps ve as c n
+     | _, _, _, _, _, _, _, _, _, _ => "bad-op")
+  | [.atom "wrap", nr, np, cl] =>
+    (match nr.nat?, np.nat?, cl.bool? with
+     | some nr, some np, some cl => handleWrap nr np cl
+     | _, _, _ => "bad-op")
+  | _ => "bad-op"
+
 end YaegiVerif.Driver.C07
